@@ -14,6 +14,7 @@ from .core import (
     H,
     INF,
     INT,
+    INTINF,
     NEG_INF,
     OBJ,
     OPTINT,
@@ -43,7 +44,7 @@ register_class("Future", {"state": INT, "result": OBJ, "exc": OBJ}, kind="env")
 register_class("AEvent", {"flag": BOOL}, kind="env")
 register_class(
     "Task",
-    {"done": BOOL, "must_cancel": BOOL, "fut_waiter": RefT("Future"), "started": BOOL, "cancelling": INT, "ncancel": INT, "nuncancel": INT},
+    {"done": BOOL, "must_cancel": BOOL, "fut_waiter": RefT("Future"), "started": BOOL, "cancelling": INT, "ncancel": INT, "nuncancel": INT, "pending_cancel": BOOL},
     kind="env",
 )
 register_class("Handle", {"cancelled": BOOL, "when": REAL, "cb": INT, "arg": INT}, kind="env")
@@ -136,7 +137,74 @@ def is_subclass(a, b):
 
 
 def init_object(ip, info, ref):
-    pass
+    """called right after allocation, before __init__.  For a @dataclass without an explicit __init__ the generated
+    constructor is modelled from the field declarations of the real class body (see dataclass_init)."""
+    if "$live" in info.fields:
+        ip.st.put(info.name, "$live", ref.t, z3.BoolVal(True))
+    ip.ctx.unit.init_object(ip, info, ref)
+
+
+def dataclass_fields(info):
+    """(name, init?, default-expression-or-None, default_factory-expression-or-None) from the AnnAssign statements of
+    the real class body, in declaration order"""
+    from . import extract
+
+    modpath, qual = info.source
+    node = extract.module(modpath).get(qual)
+    out = []
+    for st in node.body:
+        if isinstance(st, ast.AnnAssign) and isinstance(st.target, ast.Name):
+            init, default, factory = True, None, None
+            v = st.value
+            if isinstance(v, ast.Call) and ast.unparse(v.func) == "field":
+                for kw in v.keywords:
+                    if kw.arg == "init":
+                        init = bool(ast.literal_eval(kw.value))
+                    elif kw.arg == "default":
+                        default = kw.value
+                    elif kw.arg == "default_factory":
+                        factory = kw.value
+            elif v is not None:
+                default = v
+            out.append((st.target.id, init, default, factory))
+    return out
+
+
+def dataclass_init(ip, info, ref, args, kwargs):
+    """The constructor `dataclasses.dataclass` generates: init-fields are bound from the arguments in declaration
+    order, the others get their default / default_factory() (a field without either stays unset), then
+    __post_init__() runs.  (Assumed semantics of the dataclass decorator; the field list is re-read from the real
+    class body on every run.)"""
+    from .interp import Env
+
+    modpath, _ = info.source
+    args = list(args)
+    kwargs = dict(kwargs)
+    for name, init, default, factory in dataclass_fields(info):
+        if init:
+            if args:
+                v = args.pop(0)
+            elif name in kwargs:
+                v = kwargs.pop(name)
+            elif default is not None:
+                v = ip.eval(default, Env({}), modpath)
+            elif factory is not None:
+                v = ip.call(ip.eval(factory, Env({}), modpath), [], {})
+            else:
+                raise Unsupported(f"missing dataclass argument {name}")
+        elif default is not None:
+            v = ip.eval(default, Env({}), modpath)
+        elif factory is not None:
+            v = ip.call(ip.eval(factory, Env({}), modpath), [], {})
+        else:
+            ip.ctx.unit.dataclass_unset(ip, info, ref, name)
+            continue
+        ip.setattr(ref, name, v)
+    if args or kwargs:
+        raise Unsupported("too many dataclass arguments")
+    fm = ip.find_method(info.name, "__post_init__")
+    if fm is not None:
+        ip.call_function(fm[0], [ref], {})
 
 
 # ----------------------------------------------------------------------------- containers
@@ -403,6 +471,15 @@ def od_len(ip, d):
     return Sym(st.get(cn, "hi", d.t) - st.get(cn, "lo", d.t), INT)
 
 
+class KeysVal:
+    def __init__(self, od):
+        self.od = od
+
+
+def od_keys(ip, d):
+    return KeysVal(d)
+
+
 # asyncio.Future -------------------------------------------------------------
 
 
@@ -490,6 +567,12 @@ def task_cancelling(ip, t):
     return Sym(c, INT)
 
 
+def task_has_pending_cancellation(ip, t):
+    """AsyncIOTaskInfo.has_pending_cancellation() of the task identified by `t` (TaskInfo is modelled as the task's
+    identity): an environment fact that may change at every suspension point"""
+    return Sym(ip.st.get("Task", "pending_cancel", t.t), BOOL)
+
+
 def task_done(ip, t):
     return Sym(ip.st.get("Task", "done", t.t), BOOL)
 
@@ -509,6 +592,7 @@ MODEL_METHODS = {
         "popitem": od_popitem,
         "pop": od_pop,
         "get": od_get,
+        "keys": od_keys,
         "move_to_end": od_move_to_end,
         "clear": od_clear,
         "__len__": od_len,
@@ -522,7 +606,7 @@ MODEL_METHODS = {
         "result": fut_result,
     },
     "AEvent": {"set": aev_set, "is_set": aev_is_set, "wait": aev_wait},
-    "Task": {"cancelling": task_cancelling, "done": task_done},
+    "Task": {"cancelling": task_cancelling, "done": task_done, "has_pending_cancellation": task_has_pending_cancellation},
 }
 
 
@@ -723,6 +807,8 @@ def b_isinstance(ip, x, cls):
             return "int" in names
         if x.ty is OPTINT:
             return Sym(x.t != -1, BOOL) if "int" in names else False
+        if x.ty is INTINF:
+            return Sym(x.t != -1, BOOL) if "int" in names else ("float" in names and Sym(x.t == -1, BOOL))
         if x.ty is REAL:
             return "float" in names  # symbolic reals stand for non-int float arguments
         if x.ty is BOOL:
@@ -857,6 +943,28 @@ def b_range(ip, *a):
     raise Unsupported("range with a step")
 
 
+def b_list(ip, x=None):
+    """list(<OrderedDict>.keys()): a new list holding the keys in order (snapshot)"""
+    if x is None:
+        return I.EmptyLit(("deque",))
+    if isinstance(x, KeysVal):
+        st, d = ip.st, x.od
+        ci = CLASSES[d.ty.cls]
+        lt = ListT(ci.key)
+        cn = lt.cls
+        r = Sym(st.alloc(cn), lt)
+        st.put(cn, "data", r.t, st.get(ci.name, "kdata", d.t))
+        st.put(cn, "lo", r.t, st.get(ci.name, "lo", d.t))
+        st.put(cn, "hi", r.t, st.get(ci.name, "hi", d.t))
+        cnt = st.fresh("cnt", z3.ArraySort(ci.key.sort(), z3.IntSort()))
+        k = z3.Const(st.uniq("k"), ci.key.sort())
+        has = st.get(ci.name, "has", d.t)
+        st.assume(z3.ForAll([k], z3.Select(cnt, k) == z3.If(z3.Select(has, k), 1, 0), patterns=[z3.Select(cnt, k)]))
+        st.put(cn, "cnt", r.t, cnt)
+        return r
+    raise Unsupported("list(iterable)")
+
+
 def b_deque(ip, *a):
     if a:
         raise Unsupported("deque(iterable)")
@@ -901,6 +1009,7 @@ GLOBALS = {
     "tuple": Builtin("tuple", b_tuple),
     "current_task": Builtin("current_task", b_current_task),
     "deque": Builtin("deque", b_deque),
+    "list": Builtin("list", b_list),
     "range": Builtin("range", b_range),
     "super": Builtin("super", b_super),
     "set": Builtin("set", b_set),
@@ -1047,6 +1156,8 @@ def exec_loop(ip, s, env, f):
     ctx, st = ip.ctx, ip.st
     ordinal = ip.loop_ordinal(s, f)
     spec = ctx.unit.loop_spec(f.qualname, ordinal)
+    if spec is None:
+        spec = ctx.unit.loop_spec_by_shape(s, f)
     if spec is None:
         raise Unsupported(f"loop {ordinal} of {f.qualname} has no invariant")
     if not isinstance(s, ast.While):
